@@ -1,0 +1,69 @@
+//go:build verif
+
+package parser2
+
+// Verification hook (add-only): how far the parser reads the token stream.
+
+// VerifSetComments switches comment skipping on or off (AllowComments can only switch it on).
+func (p *Parser[V]) VerifSetComments(comments bool) {
+	p.allowComments = comments
+}
+
+// VerifParseReceived parses str the way Parse does (same tokenizer configuration, parseLet, the
+// check for trailing tokens; no optimizer) but without the deferred drain, and reports how many
+// tokens the parser had received from the tokenizer goroutine when it returned (tokens waiting in
+// the two-token lookahead buffer count as received) and how many tokens the tokenizer produced in
+// total. The remaining tokens are drained here, so the
+// tokenizer goroutine terminates.
+func (p *Parser[V]) VerifParseReceived(str string, idents Identifiers[V]) (received int, total int, err error) {
+	if p.operatorDetect == nil {
+		func() {
+			defer func() { recover() }()
+			p.Parse("", idents)
+		}()
+	}
+	in := NewTokenizer(str, p.number, p.identifier, p.operatorDetect).
+		SetTextOperators(p.textOperators).
+		SetKeyWords(p.keyWords).
+		SetComments(p.allowComments).
+		SetComfort(p.comfort).
+		Start()
+	// a second tokenizer object without a goroutine of its own: its channel is fed from the
+	// first one through a counting relay, rendezvous by rendezvous
+	counted := make(chan Token)
+	relayDone := make(chan struct{})
+	stop := make(chan struct{})
+	go func() {
+		defer close(relayDone)
+		for t := range in.tok {
+			total++
+			select {
+			case counted <- t:
+				received++
+			case <-stop:
+				for range in.tok {
+					total++
+				}
+				return
+			}
+		}
+		close(counted)
+	}()
+	out := &Tokenizer{tok: counted}
+	func() {
+		defer func() {
+			if r := recover(); r != nil {
+				err = AnyToError(r)
+			}
+		}()
+		_, err = p.parseLet(out, idents)
+		if err == nil {
+			if t := out.Next(); t.typ != tEof {
+				err = unexpected("EOF", t)
+			}
+		}
+	}()
+	close(stop)
+	<-relayDone
+	return
+}
